@@ -329,7 +329,21 @@ def replay(params, model, wd):
                 oa, ob = offsets(gaf), offsets(zgaf)
                 ra = {k: ([oa.index(o) for o in v] if k != "ref_contig" else v) for k, v in da.items()}
                 rb = {k: ([ob.index(o) for o in v] if k != "ref_contig" else v) for k, v in db.items()}
-                return {"reproduced": ra != rb, "key": "C17:gaf:" + cons, "what": "index resolves to %r (plain) vs %r (BGZF)" % (ra, rb)}
+                if ra != rb:
+                    return {"reproduced": True, "key": "C17:gaf:" + cons, "what": "index resolves to %r (plain) vs %r (BGZF)" % (ra, rb)}
+                # several BGZF blocks: the compressed file's offsets must still resolve to the right records
+                recs = []
+                for l in lines:
+                    f = l.rstrip("\n").split("\t")
+                    if ":" in f[5] or not f[5].startswith((">", "<")):
+                        nodes = None if not f[5].startswith((">", "<")) else [n for n in IF.LAY if any(
+                            t.split(":")[0][1:] == IF.LAY[n][0] and IF.LAY[n][1] < int(t.split(":")[1].split("-")[1]) and int(t.split(":")[1].split("-")[0]) < IF.LAY[n][1] + IF.LAY[n][2]
+                            for t in __import__("re").findall(r"[<>][^<>]+", f[5]))]
+                    else:
+                        nodes = [t[1:] for t in __import__("re").findall(r"[<>][^<>]+", f[5])]
+                    recs.append((f[5], int(f[6]), int(f[7]), int(f[8]), nodes))
+                big = IF.big_bgzf_index(wd, recs)
+                return {"reproduced": bool(big), "key": "C17:gaf:%s:multi-block-bgzf" % cons, "what": big or "same"}
             if cons == "sort":
                 S.run_sort(gfa, gaf, outgaf=out("o1.gaf"))
                 S.run_sort(gfa, zgaf, outgaf=out("o2.gaf"))
